@@ -343,7 +343,7 @@ impl Config {
     pub fn get_keepalive(&self) -> Duration {
         match self.keepalive {
             Some(dur) => dur,
-            None => max(self.peer_timeout / 2 - 60, 1),
+            None => max((self.peer_timeout / 2).saturating_sub(60), 1),
         }
     }
 
